@@ -478,7 +478,13 @@ func (c *Checker) reportViolation(v *Violation, seen int) string {
 	b, _ := c.build(v.Build)
 	spec := *v.Spec
 	orig := len(spec.Hist)
-	minDeadline := time.Now().Add(60 * time.Second)
+	minDeadline := time.Now().Add(45 * time.Second)
+	if c.minBudgetEnd.IsZero() {
+		c.minBudgetEnd = time.Now().Add(120 * time.Second) // all signatures together
+	}
+	if minDeadline.After(c.minBudgetEnd) {
+		minDeadline = c.minBudgetEnd
+	}
 	try := func(s *RunSpec) bool {
 		if time.Now().After(minDeadline) {
 			return false
